@@ -296,7 +296,7 @@ def run(ck, F):
                 ck.ok("R4", f"loop@{_ord(b, cyc)}:counter", site, "counter loop whose exit is `no existing entry equals the candidate` (pigeonhole bound)", fn=b["path"])
             else:
                 ck.violation("R4", f"loop@{_ord(b, cyc)}", site, f"loop of unrecognised shape (calls: {sorted(set(calls))[:6]}): termination not established", fn=b["path"])
-    ck.floor("R4", "loops", n_loops, 12)
+    ck.floor("R4", "loops", n_loops, 6)
 
 
 def _ord(b, cyc):
